@@ -383,10 +383,13 @@ def check_jump(case, acc):
         justify(model, cls, case, acc, jump_runner, 2)
 
 
+N_CORE = 33      # the alphabet before the reserved-prefix labels and the format-special names were added
+
+
 def fam_jump(arg):
-    length, firsts = arg
+    length, firsts = arg[0], arg[1]
     acc = Acc('jumpmodels')
-    nq = len(q_alphabet())
+    nq = arg[2] if len(arg) > 2 else len(q_alphabet())
     for first in firsts:
         for rest in itertools.product(range(nq), repeat=length - 1):
             acc.cases += 1
@@ -892,8 +895,12 @@ def families(tier):
     maxlen = 3 if tier == 'quick' else 4
     shards = [(0, [])]
     for length in range(1, maxlen + 1):
-        for firsts in split(list(range(nq)), nq if length >= 3 else 2):
-            shards.append((length, firsts))
+        # lists of length 4 (thorough) range over the N_CORE-statement core of the alphabet; the later additions are
+        # covered in every list of length <= 3
+        width = N_CORE if length >= 4 else nq
+        for firsts in split(list(range(width)), width if length >= 3 else 2):
+            shards.append((length, firsts, width))
+    jump_expected = sum((N_CORE if k >= 4 else nq) ** k for k in range(maxlen + 1))
     sc = structured_cases(tier)
     files = shipped_files()
     maxn = 2 if tier == 'quick' else 3
@@ -912,8 +919,8 @@ def families(tier):
         Family('hashseeds', fam_hashseed, [[m] for m in range(len(hashseed_models()))], f'models with 8 findings of one kind per scope linted in {len(HASHSEEDS)} fresh interpreter processes with different string hash seeds: identical warning lists', expected=len(hashseed_models())),
         Family('ifstmts', fam_ifstmt, split(if_cases(), 8), 'the built-in if() as an expression statement with 1..3 arguments: condition in {0, 1, tape call}, each arm in {logging call, 0, x, 1 + logging call}, plain / as an operand / as the selected arm of another if(), at global scope and inside a function: a "pointless" verdict is justified by deleting the statement on every tape',
                expected=len(IF_WRAPS) * 2 * len(IF_CONDS) * (1 + len(IF_ARMS) + len(IF_ARMS) ** 2)),
-        Family('jumpmodels', fam_jump, shards, f'every list of length <= {maxlen} over the {nq}-statement alphabet (C08 alphabet + dangling jumps, third label, pointless statement, 12 function statements (one with a nested function statement; two whose function / argument / variable / label names contain braces and percent signs), labels named like schema keys and with the reserved __bareScript prefix, with duplicate names/arguments and label-bearing bodies)',
-               expected=sum(nq ** k for k in range(maxlen + 1))),
+        Family('jumpmodels', fam_jump, shards, f'every list of length <= 3 over the {nq}-statement alphabet' + (f' and of length 4 over its first {N_CORE} statements' if maxlen >= 4 else '') + ' (C08 alphabet + dangling jumps, third label, pointless statement, 12 function statements (one with a nested function statement; two whose function / argument / variable / label names contain braces and percent signs), labels named like schema keys and with the reserved __bareScript prefix, with duplicate names/arguments and label-bearing bodies)',
+               expected=jump_expected),
         Family('structured', fam_structured, split(sc, 48), 'parsed nesting chains (depth per tier) and every small program wrapped in a function with an unused argument, an unused variable and a pointless statement', expected=len(sc)),
         Family('shipped', fam_shipped, [files], 'the shipped .bare scripts found at run time', expected=len(files)),
     ]
